@@ -11,8 +11,10 @@ The property is decomposed along the call structure of ModbusTransactionManager.
                   transmitted at most 1 + retries times, for every retries value and every transport behaviour
   result.<k>      execute, given transact/framer as established above: never raises, returns a message or a ModbusIOException, and leaves
                   client.state == TRANSACTION_COMPLETE and no reply slot behind (ready for the next call, which resets the framer itself)
-  retry.<k>       bounded (retries 1..2, loop unrolled): with retry_on_empty (resp. retry_on_invalid) set, a valid reply that follows empty
-                  (resp. foreign) replies within the budget is returned
+  retrystep.<k>   every retries value (loop invariant attempts + retries left == retries + 1): the loop goes round only after a reply that is not
+                  the valid one, is left only on a reply that is neither (nothing, retry_on_empty) nor (foreign, retry_on_invalid), and the reply
+                  it was left on is the one handed to the framer - by induction a valid reply after k <= retries such replies is returned
+  retry.<k>       bounded cross-check (retries 1..2, loop unrolled) of the same statement as a script
   recover.<k>     bounded stand-in (executable twin only): scripts of faulty exchanges followed by a healthy one on the same real client
                   object; the healthy exchange returns its own reply
 Hanging: every loop of execute/_transact/_recv is bounded by the retry counter (sends lemma, variant) - blocking inside the transport's
@@ -28,7 +30,7 @@ TRUSTED = []
 ASSUMPTIONS = ['transport abstracted: connect/close/send/recv are havoc-ed callbacks; a blocking recv returns within the socket/serial timeout (external)',
                'time.sleep (backoff, RTU inter-frame wait) returns (external)',
                'RTU sendPacket waiting loop: leaves through the timeout branch at the latest (time.time advances; external clock)',
-               'retry lemmas are bounded in the retry count (1..2); recovery scripts are a bounded executable stand-in',
+               'retry options: the per-iteration clauses of retrystep.<kind> (exact count, goes round only after a non-valid reply, left only on a reply that is not (empty, retry_on_empty) / (foreign, retry_on_invalid), the reply it was left on is handed to the framer) are discharged for every retries value; their composition by induction over the attempts is a hand argument (DESIGN 10.2); the scripted retry.<kind>.on_<option>.<n> units (n = 1, 2, loop unrolled) remain as bounded cross-checks and are not counted as proved; recovery scripts are a bounded executable stand-in',
                'the call-site abstractions TransactCounted and FramerQuiet are hand-written; what they assume is what C13/transact.<kind>, C13/framer.<kind>, C13/decoder (and C08/filter, C08/transact) prove on the real code, minus the escaping exception classes recorded as findings C13-F3..F6 - correspondence by inspection',
                'computeCRC / computeLRC contracts are verified in the C03 and C07 checks']
 PROP = 'C13'
@@ -216,7 +218,9 @@ def client_for(E, kind, retries, roe, roi, transport=None, decoder_outcomes=('me
     wire, rec = CL.Wire(), F.Rec()
     client, tm, f = CL.make_client(E, kind, wire, rec, retries, roe, roi, transport or rx_transport(E), decoder_outcomes=decoder_outcomes)
     E.set(tm, '_ghost_sends', 0)
+    E.set(tm, '_ghost_attempts', 0)
     E.set(tm, 'tid', 7)
+    CL.CUR['last'] = None
     return wire, rec, client, tm, f
 
 
@@ -341,6 +345,93 @@ def retry_lemma(kind, option, retries):
     return lemma
 
 
+
+# --------------------------------------------------------------------------- retry options honoured, for every retry count (loop invariant)
+class TransactStep(TransactCounted):
+    """TransactCounted + ghost: tm._ghost_attempts += 1 (one call = one attempt), CUR['last'] = the bytes this attempt received"""
+    def apply(self, I, args, kw):
+        from pyvc.sym import SymE
+        r = TransactCounted.apply(self, I, args, kw)
+        E = SymE(I.st, I.cfg)
+        E.I = I
+        tm = args[0]
+        E.set(tm, '_ghost_attempts', E.get(tm, '_ghost_attempts') + 1)
+        CL.CUR['last'] = r[0]
+        return r
+
+
+def _reply_kind(E, kind, d, uid):
+    """(valid, foreign) of the received bytes d: a frame-sized reply whose unit id on the wire is / is not the request's"""
+    if kind == 'ascii':
+        from spec import checks as CK
+        hexd = L.And(*[CK.hexval(L.at(d, i)) >= 0 for i in (1, 2, 3, 4)])
+    else:
+        hexd = True
+    from .C08 import wire_ids
+    w = wire_ids(kind, d)[0]
+    framed = L.And(L.length(d) >= 8, hexd)
+    return L.And(framed, w == uid), L.And(framed, w != uid)
+
+
+def step_ann(kind):
+    """retry loop, exact count: attempts made + retries left == retries + 1 - an iteration that goes round gives up exactly one retry - and it
+    goes round only after a reply that is not the valid one (ghost CUR['last'] = what this iteration's attempt received)"""
+    def inv(v, j):
+        c = L.And(v.self._ghost_attempts + v.retries == v.self.retries + 1, v.retries >= 0, v.self._ghost_attempts >= 0)
+        d = CL.CUR.get('last')
+        if d is None:
+            return c
+        valid, foreign = _reply_kind(v.E, kind, d, v.request.unit_id)
+        return L.And(c, L.Not(valid))
+    ann = LoopAnn('retrystep', inv, variant=lambda v: v.retries)
+
+    def havoc(v):
+        v.E.set(v.self, '_ghost_sends', v.E.fresh_int('sends_so_far'))
+        v.E.set(v.self, '_ghost_attempts', v.E.fresh_int('attempts_so_far'))
+        CL.CUR['last'] = None
+        _set_local(v, 'response', CL._fresh_bytes(v.E, 'response_of_an_earlier_iteration', 0, 600))
+        _set_local(v, 'last_exception', v.E.opaque('transport-error-or-None'))
+        silent = v.E.st.branch(2, 'unit-in-no-response-list')
+        v.E.set(v.self, '_no_response_devices', [v.request.unit_id] if silent else [])
+    ann.havoc = havoc
+    return ann
+
+
+def retrystep_lemma(kind):
+    """one arbitrary iteration of the retry loop and what follows it, for every retries value.  Discharged here:
+      count    attempts + retries left == retries + 1 at the loop head (so the k-th attempt is made iff k <= retries + 1 and no earlier one left)
+      round    the loop goes round only after a reply that is not the valid one (a valid reply is never given up for a retry)
+      leave    it is left by `break` only on a reply that is neither (nothing, retry_on_empty set) nor (a foreign frame, retry_on_invalid set)
+      handed   the reply it was left on is the one handed to the framer
+    By induction over the attempts (composition by hand, stated in DESIGN 10.2): after k <= retries empty (resp. foreign) replies with the
+    option set, attempt k + 1 is made, and a valid reply to it is the one the framer works on.  The executable side runs the scripts."""
+    def lemma(E):
+        if E.mode != 'symbolic':
+            option = E.choice('option', ['empty', 'invalid'])
+            return retry_lemma(kind, option, E.int('retries', 0, 6))(E)
+        retries = E.int('retries', 0, None)
+        roe, roi = E.bool('retry_on_empty'), E.bool('retry_on_invalid')
+        wire, rec, client, tm, f = client_for(E, kind, retries, roe, roi)
+        req, uid, n = CL.request(E)
+        E.assume(L.And(uid != 0, uid != 255, uid != 254))
+        out = E.attempt(lambda: E.method(tm, 'execute', req), allow_cut=True)
+        if out.cut:
+            return
+        d = CL.CUR.get('last')
+        if d is None:
+            # the loop test failed: the budget is used up
+            E.prove('retry:loop-left-without-break-only-when-1+retries-attempts-were-made', tm._ghost_attempts == retries + 1)
+            return
+        valid, foreign = _reply_kind(E, kind, d, uid)
+        E.prove('retry:not-left-on-an-empty-reply-while-retry_on_empty-is-set', L.Not(L.And(L.length(d) == 0, roe)))
+        E.prove('retry:not-left-on-a-foreign-reply-while-retry_on_invalid-is-set', L.Not(L.And(foreign, roi)))
+        E.prove('retry:attempt-was-within-the-budget', tm._ghost_attempts <= retries + 1)
+        if len(wire.handed) >= 1:
+            E.prove('retry:the-reply-the-loop-was-left-on-is-the-one-handed-to-the-framer', wire.handed[-1][0] is d)
+        else:
+            E.prove('retry:the-reply-the-loop-was-left-on-is-the-one-handed-to-the-framer', not out.ok)
+    return lemma
+
 # --------------------------------------------------------------------------- recovery (bounded, executable twin only)
 def recover_lemma(kind):
     def lemma(E):
@@ -442,6 +533,8 @@ def get_units():
                 u = Unit('%s/retry.%s.on_%s.%d' % (PROP, kind, option, retries), retry_lemma(kind, option, retries), [PROP], contracts=cs,
                          unroll={(TMQ + '.execute', 0): retries + 1}, bounded=True, functions=[TMQ + '.execute'])
                 us.append(u)
+        us.append(Unit('%s/retrystep.%s' % (PROP, kind), retrystep_lemma(kind), [PROP], contracts=(TransactStep(kind), FramerQuiet(kind)),
+                       loops={(TMQ + '.execute', 0): step_ann(kind)}, functions=[TMQ + '.execute', F.QUAL[kind] + '.decode_data']))
         u = Unit('%s/recover.%s' % (PROP, kind), recover_lemma(kind), [PROP], functions=[TMQ + '.execute', fq + '.processIncomingPacket'])
         u.concrete_only, u.bounded = True, True
         us.append(u)
